@@ -89,7 +89,7 @@ Theorem setupPDT_through_visitElfSections (l : layout) (mb : mbinfo) (fuel : nat
         (off : N) (s : VP.st) (tr0 : list gcall) (kfuel : nat) :
   mbinfo_wf (l_saddr l) (l_strtab l) mb -> layout_wf l (encode mb) ->
   (find_fuel (mem_of l (encode mb)) <= fuel)%nat -> (S (total_len (mem_of l (encode mb))) <= fuel)%nat -> 65536 <= N.of_nat fuel ->
-  off < two64 -> VP.last s < two64 -> K.fuel_ok kfuel (block_secs mb) s ->
+  off < two64 -> VP.last s < two64 -> K.fuel_ok kfuel off (block_secs mb) s ->
   exists tr : list gcall,
     (* (1) the regenerated VisitElfSections on the block: no fault, memory untouched, visitor calls [tr] *)
     go_multiboot_VisitElfSections mld fuel (mkw [] (mem_of l (encode mb))) (l_info l) = GOk (mkw tr (mem_of l (encode mb)), tt) /\
